@@ -129,7 +129,7 @@ func (g *gen) query(s *m.Schema) *m.Stmt {
 	}
 	// a scan through the secondary index of a table this transaction already wrote to is
 	// only generated when nothing runs concurrently (see attribution pass b)
-	if len(s.Index) > 0 && g.r.IntN(3) == 0 && (!g.multi || !g.written[s.Name]) {
+	if len(s.Index) > 0 && (g.r.IntN(3) == 0 || (!g.multi && g.written[s.Name] && g.r.IntN(2) == 0)) && (!g.multi || !g.written[s.Name]) {
 		st.Hint = s.Index[0]
 		st.Where = g.pred(s, true, false)
 	} else if g.r.IntN(3) > 0 {
